@@ -5,6 +5,7 @@ from __future__ import annotations
 import numpy as np
 
 from mc import problems as PR
+from mc.callers import InPlace
 from mc.oracle import ref_jet, close, REL_D
 
 BOUNDS_METHODS = {"L-BFGS-B", "TNC", "SLSQP", "Powell", "trust-constr", "Nelder-Mead"}
@@ -25,10 +26,19 @@ def check_objective(kw, pr, names, fails, rep=None, params=None):
     pts, P = probe_points(names)
     v, g, H, ok, reg, ev, eg, eH = ref_jet(obj, names, pts, P, params or {})
     m = ok & reg
+    # solver calling discipline: one buffer per callable updated in place, every point requested twice
+    kw = dict(kw)
+    for key in ("fun", "jac", "hess"):
+        if callable(kw.get(key)):
+            kw[key] = InPlace(kw[key])
     for k in np.flatnonzero(m):
         x = np.array([pts[n][k] for n in names])
         try:
             fv = float(kw["fun"](x))
+            if kw.get("jac") is not None:
+                kw["jac"](x)
+            if kw.get("hess") is not None:
+                kw["hess"](x)
         except Exception as ex:
             fails.add("exception:captured-fun:" + type(ex).__name__, x=x, msg=str(ex)[:200])
             return
@@ -102,6 +112,10 @@ def check_constraints(kw, pr, names, fails, rep=None, params=None):
         return
     pts, P = probe_points(names, k=7)
     for ci, ((sense, diff), cd) in enumerate(zip(flat, got)):
+        cd = dict(cd)
+        for key in ("fun", "jac"):
+            if callable(cd.get(key)):
+                cd[key] = InPlace(cd[key])
         want_type = "eq" if sense == "==" else "ineq"
         if cd.get("type") != want_type:
             fails.add("captured-constraint-type", index=ci, got=cd.get("type"), expected=want_type, sense=sense)
@@ -113,6 +127,8 @@ def check_constraints(kw, pr, names, fails, rep=None, params=None):
             x = np.array([pts[n][k] for n in names])
             try:
                 fv = float(cd["fun"](x))
+                if "jac" in cd and reg[k]:
+                    cd["jac"](x)
             except Exception as ex:
                 fails.add("exception:captured-constraint-fun:" + type(ex).__name__, index=ci, x=x, msg=str(ex)[:200])
                 return
